@@ -29,7 +29,7 @@ def run(tier, seed, budget=None):
     mg = e1.rapidcheck_campaign(rep, PROP, _bin(), seed, nchunks, 6000, max_size=100, args=())
     if tier == "thorough" and not rep.violations:
         fz = build.build_client("c20_transform_fuzz", [SRC], "fuzz-asan", cxx=True, extra=["-DC20_FUZZ", "-fsanitize=fuzzer"])
-        e1.libfuzzer_campaign(rep, PROP, mg, fz, seed, runs=1500000, max_len=256, out_env="C20_FUZZ_OUT", corpus_dir=os.path.join(core.VERIF, "corpus", PROP))
+        e1.libfuzzer_campaign(rep, PROP, mg, fz, seed, runs=1500000, max_len=256, out_env="C20_FUZZ_OUT", corpus_dir=os.path.join(core.VERIF, "corpus", PROP), total_time=(480 if not budget else max(10, budget * 0.5)))
     rep.assumptions += ["memory safety is observed through AddressSanitizer on exact-size region buffers", "agreement with an RFC 4648 reference encoder is recorded as an observation only"]
     return rep.finish()
 
